@@ -313,6 +313,8 @@ class RefExecutor:
                     self.opstate[op] = S
             # 2. admission of the summed batch
             if pasg:
+                if any(not (fr(a["cpu"]) > 0 and fr(a["ram"]) > 0) for a in pasg):
+                    raise Reject("bad-size", pid, "an allocation of zero or negative size")
                 ccpu = sum(fr(a["cpu"]) for a in pasg)
                 cram = sum(fr(a["ram"]) for a in pasg)
                 if ccpu > pool.free_cpu:
